@@ -109,18 +109,12 @@ class MinFlowDecompCycles(walkmodel.AbstractWalkModelDiGraph):
             if G.number_of_nodes() == 0:
                 utils.logger.error(f"{__name__}: The input graph G has no nodes. Please provide a graph with at least one node.")
                 raise ValueError(f"The input graph G has no nodes. Please provide a graph with at least one node.")
-            if len(additional_starts) + len(additional_ends) == 0:
-                self.G_internal = nedg.NodeExpandedDiGraph(
-                    G=G, 
-                    node_flow_attr=flow_attr
-                )
-            else:
-                self.G_internal = nedg.NodeExpandedDiGraph(
-                    G=G, 
-                    node_flow_attr=flow_attr,
-                    additional_starts=additional_starts,
-                    additional_ends=additional_ends,
-                )
+            # (the additional starts / ends are handed, in expanded form, to the k-models below, which accept them on the
+            # expanded graph: the expansion itself needs no global source / sink for them)
+            self.G_internal = nedg.NodeExpandedDiGraph(
+                G=G, 
+                node_flow_attr=flow_attr
+            )
             subset_constraints_internal = self.G_internal.get_expanded_subpath_constraints(subset_constraints)
             additional_starts_internal = self.G_internal.get_expanded_additional_starts(additional_starts)
             additional_ends_internal = self.G_internal.get_expanded_additional_ends(additional_ends)
